@@ -24,7 +24,9 @@ func gasFee(gas uint64) *big.Int { return new(big.Int).Mul(new(big.Int).SetUint6
 
 // FeeAin is the minimum (and by convention exact) fee of an account -> confidential transaction that moves
 // `total` (the sum of the destinations): CalNewAmountGas(total) * ParGasPrice.
-func FeeAin(total *big.Int) *big.Int { return gasFee(types.CalNewAmountGas(total, types.EverLiankeFee)) }
+func FeeAin(total *big.Int) *big.Int {
+	return gasFee(types.CalNewAmountGas(total, types.EverLiankeFee))
+}
 
 // FeeUin is the minimum fee of a transaction with confidential inputs: utxoGas*ParGasPrice if it has a confidential
 // output, plus CalNewAmountGas(accountOut)*ParGasPrice if it pays accountOut > 0 to an account.
